@@ -73,6 +73,7 @@ def gen_cases(rng, tier):
         pre = {rng.choice(keys): bytes([rng.randrange(256)]) * rng.randint(0, 3) for _ in range(rng.randint(0, 4))}
         c = gen_block(rng, keys)
         c["pre"] = sorted((k.hex(), v.hex()) for k, v in pre.items())
+        c["bystander"] = rng.random() < 0.25
         if rng.random() < 0.4:
             # the SAME ScratchDB object used for further blocks (C17.runBlocks_spec): each starts with an empty buffer
             # over the wrapped database the previous one left
@@ -177,7 +178,25 @@ def run_case(case):
         res.tags.add("exit:" + outcome)
         res.tags.add("dd:%s" % blk["dd"])
 
-    one_block(case, pre)
+    if case.get("bystander"):
+        # a SECOND ScratchDB (its own wrapped dict) has a batch open around the first block: two buffers alive at the same
+        # time must not see each other (seeded change C05p-scratchdb-mutable-default-cache: `cache={}` evaluated once)
+        bdict = {b"by\x01": b"own"}
+        bsdb = ScratchDB(bdict)
+        res.tags.add("second-scratchdb-open-at-the-same-time")
+        with bsdb.batch_commit(do_deletes=True):
+            bsdb[b"by\x02"] = b"two"
+            del bsdb[b"by\x01"]
+            one_block(case, pre)
+            if bsdb.cache.keys() - {b"by\x01", b"by\x02"}:
+                res.fail("buffers-shared", "a second ScratchDB's buffer holds keys written through the first: %r" % (sorted(bsdb.cache),))
+            bsdb[b"by\x03"] = b"three"
+        if bdict != {b"by\x02": b"two", b"by\x03": b"three"}:
+            res.fail("buffers-shared", "the second ScratchDB committed %r, it buffered by02=two, by03=three and the deletion of by01" % (bdict,))
+        if any(k.startswith(b"by") for k in wrapped):
+            res.fail("buffers-shared", "the first ScratchDB's wrapped database received keys buffered in the second one")
+    else:
+        one_block(case, pre)
     for extra in case.get("more", []):
         res.tags.add("object-reused-for-another-block")
         one_block(extra, dict(wrapped))
